@@ -211,6 +211,11 @@ fn judge_video(cfg: &Cfg, st: &State, pts: f64, dts: f64, explicit_dts: bool, da
         if tp.is_huge() || td.is_huge() {
             j.zone.get_or_insert("Z2 timestamp at/over 2^53 ticks");
         }
+        if let (Some(p), Some(d)) = (tp.lo(), td.lo()) {
+            if (p as i128 - d as i128).abs() >= (1i128 << 31) - 1 {
+                j.zone.get_or_insert("Z12 |pts-dts| at/over 2^31 ticks (C16)");
+            }
+        }
         if !explicit_dts {
             if let Some(last) = st.last_v_pts {
                 if pts <= last {
@@ -248,6 +253,9 @@ fn judge_video(cfg: &Cfg, st: &State, pts: f64, dts: f64, explicit_dts: bool, da
             }
         }
         if !data.is_empty() {
+            if matches!(cfg.vcodec, H264 | H265) && units(data).iter().any(|u| u.len() > 65_535) {
+                j.zone.get_or_insert("Z13 NAL unit longer than 65535 bytes in the first frame (C16)");
+            }
             match carries_config(cfg.vcodec, data) {
                 HasCfg::Yes => {}
                 HasCfg::No => {
@@ -379,7 +387,10 @@ pub fn check(h: &History, ex: &Exec, obs: &mut Obs) -> Vec<Violation> {
             }
         }
         Res::Err(e) => {
-            if cfg.video {
+            let z_opus = cfg.audio_effective().map(|a| a.is_opus() && a.channels > 255).unwrap_or(false);
+            if cfg.video && z_opus && e.class == C::Io {
+                obs.count("zone:Z14 Opus channel count over 255 (C16)", 1);
+            } else if cfg.video {
                 out.push(v(format!("rejected-valid|build|as {:?}", e.class), format!("build failed with {} although video was configured", e.variant)));
             } else if e.class != C::MissingVideoConfig {
                 out.push(v(format!("wrong-error|build|got {:?}", e.class), format!("build without video failed with {}", e.variant)));
@@ -553,7 +564,13 @@ fn zone_allows(zone: &str, c: ErrClass) -> bool {
         return matches!(c, C::GapOverflow);
     }
     if zone.starts_with("Z2") {
-        return matches!(c, C::GapOverflow | C::VideoOrdering | C::DtsOrdering | C::AudioOrdering | C::Io | C::AudioBeforeVideo);
+        return matches!(c, C::GapOverflow | C::VideoOrdering | C::DtsOrdering | C::AudioOrdering | C::Io | C::AudioBeforeVideo | C::NonFiniteVideoPts | C::NonFiniteVideoDts | C::NonFiniteAudioPts);
+    }
+    if zone.starts_with("Z12") {
+        return matches!(c, C::GapOverflow | C::Io);
+    }
+    if zone.starts_with("Z13") {
+        return matches!(c, C::FirstMissingConfig | C::GapOverflow | C::Io);
     }
     if zone.starts_with("Z4") {
         return matches!(c, C::AdtsFraming | C::EmptyAudio);
